@@ -92,6 +92,13 @@ def check(acc, job):
                     got = [l for l in o.split('\n') if l and is_data(l) and not l.startswith('**')]
                     if got != exp:
                         acc.violation(Viol(cls, 'pair-does-not-reproduce-the-data-lines-of-its-fragment', dict(case, fragment=fi, pair=[lo, hi]), exp, got))
+                # after the exports: still the same document as the import of the joined text
+                try:
+                    M2 = doc.measures_count()
+                except Exception:
+                    M2 = 0
+                if M2 != M or list(getattr(doc, 'measure_start_tree_stages', [])) != list(getattr(d2, 'measure_start_tree_stages', [])):
+                    acc.violation(Viol(cls, 'measure-count-changed-by-exporting-the-pairs', case, M, M2))
 
 
 def _job(jobs):
